@@ -974,7 +974,63 @@ func scenTwoHalts(c *Ctx) *eCase {
 	return ec
 }
 
-var scenarios = []func(*Ctx) *eCase{scenNewlineLast, scenDeep, scenUtf8, scenUtf8, scenCroak, scenLang, scenReload, scenBlanks, scenWild, scenCatchRel, scenEnds, scenSizes, scenRefused, scenCatchHub, scenSameLen, scenReloadEnd, scenBlockedFirst, scenTwoHalts}
+// '^' from a later page of a node below the entry node (directly, or through a node whose code is MOVE ^): the documented move
+// table puts the session at the entry node, page 0
+func scenTopFromPage(c *Ctx) *eCase {
+	r := c.Rng
+	ec := newScenario(0)
+	ec.out = []int{40, 48, 44}[r.Intn(3)]
+	ec.node("root", "Root {{.big}}", GInstr{Op: "LOAD", A: "big", N: 0}, GInstr{Op: "MAP", A: "big"}, GInstr{Op: "MNEXT", A: "fwd", B: "11"}, GInstr{Op: "MPREV", A: "bck", B: "22"},
+		GInstr{Op: "MOUT", A: "sub", B: "1"}, GInstr{Op: "HALT"}, GInstr{Op: "INCMP", A: "sub", B: "1"}, GInstr{Op: "INCMP", A: ">", B: "11"}, GInstr{Op: "INCMP", A: "<", B: "22"})
+	sub := []GInstr{{Op: "MAP", A: "big"}, {Op: "MNEXT", A: "fwd", B: "11"}, {Op: "MPREV", A: "bck", B: "22"}, {Op: "MOUT", A: "top", B: "7"}, {Op: "MOUT", A: "deep", B: "2"}, {Op: "HALT"},
+		{Op: "INCMP", A: ">", B: "11"}, {Op: "INCMP", A: "<", B: "22"}, {Op: "INCMP", A: "deep", B: "2"}}
+	if r.Intn(2) == 0 {
+		sub = append(sub, GInstr{Op: "INCMP", A: "^", B: "7"})
+	} else {
+		sub = append(sub, GInstr{Op: "INCMP", A: "totop", B: "7"})
+	}
+	ec.node("sub", "Sub {{.big}}", sub...)
+	ec.node("deep", "Deep {{.big}}", GInstr{Op: "MAP", A: "big"}, GInstr{Op: "MNEXT", A: "fwd", B: "11"}, GInstr{Op: "MPREV", A: "bck", B: "22"}, GInstr{Op: "MOUT", A: "top", B: "7"}, GInstr{Op: "HALT"},
+		GInstr{Op: "INCMP", A: ">", B: "11"}, GInstr{Op: "INCMP", A: "<", B: "22"}, GInstr{Op: "INCMP", A: "^", B: "7"})
+	ec.node("totop", "ToTop", GInstr{Op: "MOVE", A: "^"})
+	ec.catchNode()
+	rows := []string{"alpha", "bravo", "charlie", "delta", "echo", "foxtrot", "golf", "hotel", "india", "juliet", "kilo", "lima"}
+	ec.exts = append(ec.exts, extRule{sym: "big", callIdx: -1, content: strings.Join(rows[:8+r.Intn(5)], "\n")})
+	switch r.Intn(3) {
+	case 0:
+		ec.inputs = ins("", "1", "11", "7", "11", "1")
+	case 1:
+		ec.inputs = ins("", "1", "2", "11", "11", "7", "1", "11", "7")
+	default:
+		ec.inputs = ins("", "11", "1", "11", "22", "11", "7", "22")
+	}
+	return ec
+}
+
+// a CATCH or CROAK that does not match its flag, placed after MAP and MOUT lines of the same page: it must do nothing at all
+func scenCatchMid(c *Ctx) *eCase {
+	r := c.Rng
+	ec := newScenario(4)
+	sig := uint32(8 + r.Intn(3))
+	var mid GInstr
+	switch r.Intn(3) {
+	case 0:
+		mid = GInstr{Op: "CATCH", A: "other", N: sig, M: true} // flag not set, CATCH wants it set
+	case 1:
+		mid = GInstr{Op: "CROAK", N: sig, M: true}
+	default:
+		mid = GInstr{Op: "CATCH", A: "other", N: 11, M: false} // flag 11 is set by the handler, CATCH wants it unset
+	}
+	ec.node("root", []string{"Root {{.val}}", "Root"}[r.Intn(2)], GInstr{Op: "LOAD", A: "val", N: 12}, GInstr{Op: "MAP", A: "val"}, GInstr{Op: "MOUT", A: "one", B: "1"}, mid, GInstr{Op: "MOUT", A: "two", B: "2"}, GInstr{Op: "HALT"},
+		GInstr{Op: "INCMP", A: "other", B: "1"}, GInstr{Op: "INCMP", A: "other", B: "2"})
+	ec.node("other", "Other", GInstr{Op: "MOUT", A: "back", B: "0"}, GInstr{Op: "HALT"}, GInstr{Op: "INCMP", A: "_", B: "0"})
+	ec.catchNode()
+	ec.exts = append(ec.exts, extRule{sym: "val", callIdx: -1, content: "hello", set: []uint32{11}})
+	ec.inputs = ins("", []string{"1", "2", "x"}[r.Intn(3)], "0", "")
+	return ec
+}
+
+var scenarios = []func(*Ctx) *eCase{scenNewlineLast, scenDeep, scenUtf8, scenUtf8, scenCroak, scenLang, scenReload, scenBlanks, scenWild, scenCatchRel, scenEnds, scenSizes, scenRefused, scenCatchHub, scenSameLen, scenReloadEnd, scenBlockedFirst, scenTwoHalts, scenTopFromPage, scenCatchMid}
 
 func genScenarioCases(c *Ctx, n int) []string {
 	var ls []string
